@@ -1386,6 +1386,9 @@ class Worker(actor.RallyActor):
                 self.drive()
             else:
                 self.logger.debug("Worker[%d] is executing tasks at index [%d].", self.worker_id, self.current_task_index)
+                # the previous executor (if any) has finished: ship what it may have sampled after the last drain before the
+                # sampler is replaced, otherwise those samples are lost.
+                self.send_samples()
                 self.sampler = Sampler(start_timestamp=time.perf_counter(), buffer_size=self.sample_queue_size)
                 executor = AsyncIoAdapter(
                     self.config,
